@@ -272,13 +272,60 @@ func (p *pathCtx) repair(goal *term) []uint64 {
 				}
 			}
 		}
+		if !found && width > 1 {
+			for _, cand := range genericCands(old) {
+				if try(cand) {
+					found = true
+					break
+				}
+			}
+		}
 		p.tb.newModel()
 		if found {
 			return w
 		}
 	}
+	// two variables at a time (generic candidates only)
+	var vs []int
+	for vi := 0; vi < 63 && vi < len(w) && len(vs) < 3; vi++ {
+		if m&(1<<uint(vi)) != 0 && p.tb.vars[vi].w > 1 {
+			vs = append(vs, vi)
+		}
+	}
+	for a := 0; a < len(vs); a++ {
+		for b := a + 1; b < len(vs); b++ {
+			va, vb := vs[a], vs[b]
+			oa, ob := w[va], w[vb]
+			for _, ca := range genericCands(oa) {
+				for _, cb := range genericCands(ob) {
+					w[va] = ca & mask(p.tb.vars[va].w)
+					w[vb] = cb & mask(p.tb.vars[vb].w)
+					p.tb.newModel()
+					ok := p.tb.eval(goal, w) != 0
+					if ok {
+						for _, c := range p.pcAll {
+							if c.varMask()&(1<<uint(va)|1<<uint(vb)) != 0 && p.tb.eval(c, w) == 0 {
+								ok = false
+								break
+							}
+						}
+					}
+					if ok {
+						p.tb.newModel()
+						return w
+					}
+				}
+			}
+			w[va], w[vb] = oa, ob
+		}
+	}
 	p.tb.newModel()
 	return nil
+}
+
+func genericCands(old uint64) []uint64 {
+	return []uint64{0, 1, 2, 3, 5, 7, 8, 63, 64, ^uint64(0), ^uint64(1), 1 << 62, 1 << 63, 1<<63 - 1,
+		0x5555555555555555, 0xAAAAAAAAAAAAAAAA, old + 1, old - 1, -old, ^old, old << 1, old >> 1}
 }
 
 // learn records what a new conjunct implies syntactically: the truth of the
@@ -407,7 +454,11 @@ func (p *pathCtx) branchV(c *term, recVal uint64) bool {
 		}
 		p.ex.push(workItem{prefix: alt, witness: model})
 	case resUnknown:
-		p.noteInconclusive("solver unknown on branch feasibility")
+		d := other.String()
+		if len(d) > 300 {
+			d = d[:300]
+		}
+		p.noteInconclusive("solver unknown on branch feasibility: " + d)
 	}
 	var d int32
 	if take {
